@@ -500,6 +500,21 @@ class Interp:
                 yield st, Unknown(f'local:{node.id}')
                 return
             try:
+                fnode = source.select(rel, node.id)
+            except Exception:
+                fnode = None
+            if isinstance(fnode, (ast.FunctionDef, ast.AsyncFunctionDef)) and not fnode.decorator_list:
+                # a module-level helper of the same file that no sidecar models (e.g. extracted by a change): the REAL
+                # function, inlined
+                yield st, Closure(fnode, 0, node.id)
+                return
+            if top is not None and self._assigned_in_enclosing_function(rel, top, node.id):
+                # a variable of an ENCLOSING function that the sidecar does not bind (a closure variable a change started
+                # to use): whatever the enclosing function holds there
+                st.emit('unknown_closure_variable', name=node.id)
+                yield st, Unknown(f'closure:{node.id}')
+                return
+            try:
                 v = ast.literal_eval(source.module_assign(rel, node.id))
                 if isinstance(v, (dict, list, set)):
                     # a module-level MUTABLE object is shared by all calls (and all instances): if this function can
@@ -519,6 +534,21 @@ class Interp:
                     raise Unsupported(f'unbound name {node.id!r}')
                 v = Unknown(f'import:{node.id}')
             yield st, v
+
+    @staticmethod
+    def _assigned_in_enclosing_function(rel, fn, name):
+        try:
+            tree, _ = source.load_module(rel)
+        except Exception:
+            return False
+        for outer in ast.walk(tree):
+            if isinstance(outer, (ast.FunctionDef, ast.AsyncFunctionDef)) and outer is not fn and any(n is fn for n in ast.walk(outer)):
+                for n in ast.walk(outer):
+                    if isinstance(n, ast.Name) and n.id == name and isinstance(n.ctx, ast.Store):
+                        return True
+                    if isinstance(n, ast.arg) and n.arg == name:
+                        return True
+        return False
 
     @staticmethod
     def _mutates_module_object(fn, name):
@@ -543,7 +573,11 @@ class Interp:
             yield s, v
 
     def ev_Await(self, node, st):
-        yield from self.ev(node.value, st)
+        for s, v in self.ev(node.value, st):
+            if isinstance(v, SV) and hasattr(v.ty, 'on_await'):
+                yield from v.ty.on_await(self, s, v)       # e.g. the result (or exception) of a future
+            else:
+                yield s, v
 
     def ev_Tuple(self, node, st):
         if any(isinstance(e, ast.Starred) for e in node.elts):
